@@ -5,7 +5,10 @@ import (
 	"errors"
 	"fmt"
 	"io"
+	"os"
+	"path/filepath"
 	"strings"
+	"sync/atomic"
 	"testing"
 	"time"
 
@@ -25,6 +28,8 @@ type c09Case struct {
 }
 
 var errC09 = errors.New("verif: injected reader failure")
+
+var c09FileSeq atomic.Int64
 
 type c09Reader struct {
 	data  []byte
@@ -81,6 +86,15 @@ func c09Parse(c *c09Case) (panicked interface{}, stack string, err error) {
 	}()
 	if c.Reader == "string" {
 		_, err = mail.EMLToMsgFromString(string(c.Doc))
+		return
+	}
+	if c.Reader == "file" {
+		path := filepath.Join(env.Dir, fmt.Sprintf("c09-%d-%d.eml", os.Getpid(), c09FileSeq.Add(1)))
+		if werr := os.WriteFile(path, c.Doc, 0o600); werr != nil {
+			return nil, "", nil
+		}
+		defer os.Remove(path)
+		_, err = mail.EMLToMsgFromFile(path)
 		return
 	}
 	var r io.Reader
@@ -171,7 +185,7 @@ func c09Gen(t *rapid.T) c09Case {
 		doc = doc[:64*1024]
 	}
 	c := c09Case{Doc: []byte(doc)}
-	c.Reader = rapid.SampledFrom([]string{"whole", "whole", "string", "onebyte", "errat", "dataerr", "zeros"}).Draw(t, "reader")
+	c.Reader = rapid.SampledFrom([]string{"whole", "whole", "string", "file", "onebyte", "errat", "dataerr", "zeros"}).Draw(t, "reader")
 	switch c.Reader {
 	case "errat":
 		c.K = rapid.IntRange(0, len(doc)).Draw(t, "errat")
@@ -183,7 +197,7 @@ func c09Gen(t *rapid.T) c09Case {
 
 func c09Describe() {
 	rec := core.Rec("C09")
-	rec.Rule = "inputs from three sources: (1) a grammar-based generator of EML documents (header lists with valid and broken addresses/dates/encoded-words; single-part and nested multipart bodies up to depth 3, all transfer encodings, file parts with quoted/unquoted/missing/extra Content-Disposition parameters, reused boundaries, missing close delimiters), (2) renderings of generated go-mail messages, (3) arbitrary bytes; each followed by 0..6 structure-aware mutations (parameter value emptied / unquoted / half-quoted / oversized, truncation at any byte, range deletion, line duplication, CRLF->LF/CR, insertion of hostile header constants, header name without value, transfer encodings swapped, boundary damage, byte flips); reader behaviours: whole buffer, string entry point, 1-byte reads, error at offset k (with data), (n>0, EOF) together, up to 50 leading (0, nil) reads. Thorough adds native coverage-guided fuzzing of EMLToMsgFromReader seeded with the repository's testdata/*.eml and a dictionary of the hostile constants. " +
+	rec.Rule = "inputs from three sources: (1) a grammar-based generator of EML documents (header lists with valid and broken addresses/dates/encoded-words; single-part and nested multipart bodies up to depth 3, all transfer encodings, file parts with quoted/unquoted/missing/extra Content-Disposition parameters, reused boundaries, missing close delimiters), (2) renderings of generated go-mail messages, (3) arbitrary bytes; each followed by 0..6 structure-aware mutations (parameter value emptied / unquoted / half-quoted / oversized, truncation at any byte, range deletion, line duplication, CRLF->LF/CR, insertion of hostile header constants, header name without value, transfer encodings swapped, boundary damage, byte flips); reader behaviours: whole buffer, string entry point, file entry point (EMLToMsgFromFile), 1-byte reads, error at offset k (with data), (n>0, EOF) together, up to 50 leading (0, nil) reads. Thorough adds native coverage-guided fuzzing of EMLToMsgFromReader seeded with the repository's testdata/*.eml and a dictionary of the hostile constants. " +
 		"Oracle: the call returns (message or error) without panic and within 10 s (three orders of magnitude above the normal run time; a time-out must repeat three times in a row). Non-trivial: the input has a multipart content type with a boundary parameter or a Content-Disposition field, i.e. reaches the multipart / attachment code. Distinct by (input hash, reader)."
 	rec.Assumptions = []string{"inputs are at most 64 KiB", "termination is observed with a generous wall-clock bound (10 s for inputs <= 64 KiB), not proved"}
 }
@@ -207,7 +221,7 @@ func TestC09Corpus(t *testing.T) {
 	}
 	docs = append(docs, repoEMLFixtures()...)
 	for _, d := range docs {
-		for _, rd := range []string{"whole", "string", "onebyte", "dataerr"} {
+		for _, rd := range []string{"whole", "string", "file", "onebyte", "dataerr"} {
 			core.Rec("C09").AddExtra("corpus_cases", 1)
 			if v := p.RunOne(c09Case{Doc: []byte(d), Reader: rd}); v != nil {
 				t.Fatalf("VIOLATION-DETAIL property=C09 %s", v)
